@@ -13,7 +13,7 @@ SO = f'{PM_TARGET}/debug/libderive_ex.so'
 def build_pm():
     """The real proc-macro, from the current working tree, guard off."""
     r = vlib.sh(['cargo', 'build', '-q', '-p', 'derive-ex', '--offline', '--target-dir', PM_TARGET],
-                cwd='/repo', timeout=1800)
+                cwd=vlib.REPO, timeout=1800)
     ok = r.returncode == 0 and os.path.exists(SO)
     return ok, (r.stdout + r.stderr)[-4000:]
 
